@@ -35,6 +35,7 @@ def check(run: Run, prog: Program, model: Model, tier: str) -> None:
         "its shape. Objects whose own special methods raise are out of scope, as in the property."
         " Hashing (set/dict membership and stores) of a value not known to be hashable, int()/float() of a value of unknown kind and str.format on a template that embeds a runtime value are partial operations.")
     run.explanation += ' RENDER-TOTAL: str()/repr()/f-string conversion of an error field that the validator fills from the validated value, with a kind that can hold an int of unbounded size, raises ValueError beyond sys.get_int_max_str_digits(); it must be handled. Lengths and loop indices are bounded. Format specs are partial operations.'
+    run.explanation += ' hex()/oct()/bin() are partial operations (TypeError outside int): a fallback of _format_value must be total for every kind.'
     run.rule_text = ("obligations: (visitor method, prop-set/shape) for TOTAL; (formatter method, value kind) for FORMAT-TOTAL; "
                      "clauses of validate_or_fail; non-trivial = at least one partial operation was judged on the paths")
     from ..entry import entry_transparent
@@ -362,4 +363,10 @@ MUTANTS = [
     {"name": "neutral: membership via `not in` early continue", "expect": "SILENT",
      "edits": [(V_, "            if key in value:\n                nested_path = deepcopy(path)[key]\n                res = val.__accept__(self, value=value[key], path=nested_path, **kwargs)\n                result.add_errors(res.get_errors())\n            else:\n                if not is_optional:\n                    result.add_error(MissingKeyValidationError(path, value, key))",
                 "            if key not in value:\n                if not is_optional:\n                    result.add_error(MissingKeyValidationError(path, value, key))\n                continue\n            nested_path = deepcopy(path)[key]\n            res = val.__accept__(self, value=value[key], path=nested_path, **kwargs)\n            result.add_errors(res.get_errors())")]},
+]
+
+# round 7: the seeded changes that were missed on first contact, replayed against the current tree
+MUTANTS += [
+    {"name": 'seeded C08-M', "rule": 'FORMAT-TOTAL',
+     "edits": [('d42/validation/_formatter.py', '        try:\n            return repr(value)\n        except ValueError:\n            # e.g. an int with more digits than sys.get_int_max_str_digits()\n            return object.__repr__(value)\n\n    def _pluralize(self, count: int, options: Sequence[str]) -> str:\n        return options[0] if count == 1 else options[-1]\n', '        try:\n            return repr(value)\n        except ValueError:\n            # an int with more digits than sys.get_int_max_str_digits():\n            # hex() has no digit limit and, unlike "<int object at 0x...>", shows the value\n            return hex(value)\n\n    def _pluralize(self, count: int, options: Sequence[str]) -> str:\n        return options[0] if count == 1 else options[-1]\n')]},
 ]
